@@ -15,11 +15,15 @@
        /\ parse (display out) = Ok out under Ctx::SANE.
    Proved here: validate... = true -> the first four conjuncts in the model's terms (the `s`/`m`
    type flags of the recomputed type + the semantic statement "no satisfying world without a
-   signing key"; limits as exact script length and conservative static bounds).  The last
-   conjunct is checked on the implementation's own parser in every run (harness). *)
+   signing key"; limits as exact script length and the ExtData figures of the output).  The last
+   conjunct is checked on the implementation's own parser in every run (harness).
+   And down to Script EXECUTION (Theorem A + Theorem B): for an accepted validation, in every
+   world W,   pol true in W  <=>  some stack over W's material is accepted on the encoded output
+   [C08_validated_policy_iff_spendable(_closed)], and every accepted stack carries a valid
+   signature under a key of the script [C08_validated_needs_signature]. *)
 From Coq Require Import List Bool NArith Permutation.
 From Verif Require Import PolicyVal PolicyValProofs PolicyValWorlds PolicyValStruct PolicyValidator PolicyValEntry PolicyValSat
-  PolicyValSigned PolicyValSpend.
+  PolicyValSigned PolicyValSpend PolicyValExec PolicyValMaterial.
 Import ListNotations.
 Local Open Scope N_scope.
 
@@ -141,18 +145,53 @@ Theorem C08_run_tr_case_ok : forall kkl pol ik inpol dl expected,
 Proof. exact run_tr_case_ok. Qed.
 Print Assumptions C08_run_tr_case_ok.
 
-(* link with the satisfaction table (the C07 statement): for well-typed fragments, the lifted
-   policy holds in a world exactly when the specification's table lists a satisfaction from the
-   world's assets.  PARTIAL w.r.t. the C07 statement: (1) the table, not execution, is on the
-   right-hand side: "table => execution" is Theorem A (C01), "execution => table" (Theorem B) is
-   not proved here; (2) [ksort] must be a permutation (hypothesis, true of any sorting function);
-   (3) raw_pkh fragments are excluded ([vliftable]; the library refuses to lift them). *)
-Theorem C08_lift_table_partial : forall ke A W m t,
+(* link with the satisfaction table: for well-typed fragments the lifted policy holds in a world
+   exactly when the specification's table lists a satisfaction from the world's assets.
+   Hypotheses that cannot be dropped: [ksort] is a permutation (the script of sortedmulti checks
+   the SORTED keys, the lift names the written ones; for an arbitrary [ksort] the two differ --
+   Theorem B's Rcan_in_table_of needs the analogous `In k (ksort ke ks) -> In k ks`), and raw_pkh
+   is excluded ([vliftable]; the table lists nothing for it and the library refuses to lift it). *)
+Theorem C08_lift_table : forall ke A W m t,
   (forall ks, Permutation (ksort ke ks) ks) ->
   assets_match A W -> type_of m = ROk t -> vliftable m ->
   (evals W (lift_ms m) = true <-> all_sat ke A m <> []).
 Proof. exact lift_table_partial. Qed.
-Print Assumptions C08_lift_table_partial.
+Print Assumptions C08_lift_table.
+
+(* ... and down to EXECUTION, both directions (Theorem A for =>, Theorem B for <=):
+   the lifted policy of a well-typed B fragment is true in W  <=>  some stack over W's material
+   ([over]: every element that verifies under a key is one W can sign, every 32-byte element is
+   a preimage W knows) is accepted by the Script semantics on the encoding.
+   [env_ok]: the key table's keys are acceptable, kh is their hash160, hash160 is injective on
+   acceptable keys (pk_h accepts ANY key with the committed hash), ksort permutes.
+   [locks_sound]: a lock the transaction passes is met in W.  [realizes]: genuine assets matching
+   W whose table witnesses W can produce -- discharged by [C08_realizes_closed]. *)
+Theorem C08_accepted_lift : forall e ke W,
+  (forall k, Exec.e_keyok e (kb ke k) = true) -> (forall k, Exec.e_hash160 e (kb ke k) = kh ke k) ->
+  DenotUniqueDissat.h160_inj e -> (forall ks, Permutation (ksort ke ks) ks) -> locks_sound e W ->
+  forall m t w, type_of m = ROk t -> c_base (t_corr t) = BB -> TheoremA.wf e ke m -> vliftable m ->
+  Exec.accepts e (enc ke m) w = true -> over e ke W w -> evals W (lift_ms m) = true.
+Proof. exact accepted_lift. Qed.
+Print Assumptions C08_accepted_lift.
+
+Theorem C08_lift_iff_spendable : forall e ke A W m t,
+  env_ok e ke -> (forall kbs, Exec.e_sigok e kbs [] = false) -> locks_sound e W ->
+  type_of m = ROk t -> c_base (t_corr t) = BB -> TheoremA.wf e ke m -> vliftable m ->
+  realizes e ke A W m ->
+  (evals W (lift_ms m) = true <-> exists w, over e ke W w /\ Exec.accepts e (enc ke m) w = true).
+Proof. exact lift_iff_spendable. Qed.
+Print Assumptions C08_lift_iff_spendable.
+
+(* every element of a table witness is a public constant, a key of the key table, or a signature
+   / preimage held in the assets; so a world closed under that material realises the assets *)
+Theorem C08_table_material : forall ke A m,
+  (forall w, In w (all_sat ke A m) -> Forall (mat ke A) w) /\ (forall w, In w (all_dsat ke A m) -> Forall (mat ke A) w).
+Proof. exact table_material. Qed.
+Print Assumptions C08_table_material.
+Theorem C08_realizes_closed : forall e ke A W m,
+  TheoremA.assets_ok e ke A -> assets_match A W -> closed_world e ke A W -> realizes e ke A W m.
+Proof. exact realizes_closed. Qed.
+Print Assumptions C08_realizes_closed.
 
 (* dissatisfiable by type => the table lists a dissatisfaction *)
 Theorem C08_dissat_table : forall ke A W m t,
@@ -170,21 +209,62 @@ Theorem C08_signed_sound : forall W m t,
 Proof. exact signed_sound. Qed.
 Print Assumptions C08_signed_sound.
 
-(* down to script execution, direction "compilation never takes spending ability away":
-   accepted validation + policy true in W  ==>  a witness from W's assets is accepted by the
-   Script semantics on the encoded output.  PARTIAL: one direction only -- the converse (accepted
-   witness ==> policy true) needs Theorem B and is not proved; hypotheses are Theorem A's (genuine
-   assets, the empty signature never verifies, constructor invariants [wf]; [no_multi] now only
-   excludes raw_pkh). *)
-Theorem C08_validated_policy_spendable_partial : forall e ke A W c kk pol m att,
+(* ---- THE VALIDATED COMPILATION AND SCRIPT EXECUTION ----
+   For an accepted validation of (policy pol, output m), in every world W:
+       pol true in W   <=>   some stack over W's material is accepted by Exec.accepts on enc ke m.
+   (<=) [C08_validated_accept_policy]: Theorem B (accepts_iff_Rsat) + induction over the exact
+        relation Rg + validator_ok; no hypothesis about assets.  Compilation never ADDS spenders.
+   (=>) Theorem A on the table witness; compilation never REMOVES spenders.  Needs the world to be
+        realised by genuine assets ([realizes], or [closed_world] in the _closed form). *)
+Theorem C08_validated_accept_policy : forall e ke W c kk pol m att w,
   validate_compilation c kk pol m att = true ->
-  TheoremA.assets_ok e ke A -> (forall kbs, Exec.e_sigok e kbs [] = false) ->
-  assets_match A W -> (forall ks, Permutation (ksort ke ks) ks) ->
-  TheoremA.wf e ke m -> TheoremA.no_multi m ->
-  evalc W pol = true ->
-  exists w, In w (all_sat ke A m) /\ Exec.accepts e (enc ke m) w = true.
-Proof. exact validated_policy_spendable. Qed.
-Print Assumptions C08_validated_policy_spendable_partial.
+  env_ok e ke -> locks_sound e W -> TheoremA.wf e ke m ->
+  Exec.accepts e (enc ke m) w = true -> over e ke W w -> evalc W pol = true.
+Proof. exact validated_accept_policy. Qed.
+Print Assumptions C08_validated_accept_policy.
+
+Theorem C08_validated_policy_iff_spendable : forall e ke A W c kk pol m att,
+  validate_compilation c kk pol m att = true ->
+  env_ok e ke -> (forall kbs, Exec.e_sigok e kbs [] = false) -> locks_sound e W -> TheoremA.wf e ke m ->
+  realizes e ke A W m ->
+  (evalc W pol = true <-> exists w, over e ke W w /\ Exec.accepts e (enc ke m) w = true).
+Proof. exact validated_policy_iff_spendable. Qed.
+Print Assumptions C08_validated_policy_iff_spendable.
+
+Theorem C08_validated_policy_iff_spendable_closed : forall e ke A W c kk pol m att,
+  validate_compilation c kk pol m att = true ->
+  env_ok e ke -> (forall kbs, Exec.e_sigok e kbs [] = false) -> locks_sound e W -> TheoremA.wf e ke m ->
+  TheoremA.assets_ok e ke A -> assets_match A W -> closed_world e ke A W ->
+  (evalc W pol = true <-> exists w, over e ke W w /\ Exec.accepts e (enc ke m) w = true).
+Proof. exact validated_policy_iff_spendable_closed. Qed.
+Print Assumptions C08_validated_policy_iff_spendable_closed.
+
+(* TOP-LEVEL SECURITY COROLLARY: every stack the compiled script accepts carries a valid signature
+   under a key of the script, and the input policy holds for whoever built that stack under this
+   transaction ([stack_world]: signs for k iff the stack carries an element verifying under k).
+   Contrapositive: no stack without such a signature is accepted. *)
+Theorem C08_validated_needs_signature : forall e ke c kk pol m att w,
+  validate_compilation c kk pol m att = true ->
+  env_ok e ke -> TheoremA.wf e ke m ->
+  Exec.accepts e (enc ke m) w = true ->
+  (exists k x, In k (keys_s (lift_ms m)) /\ In x w /\ Exec.e_sigok e (kb ke k) x = true)
+  /\ evalc (stack_world e ke w) pol = true.
+Proof. exact validated_needs_signature. Qed.
+Print Assumptions C08_validated_needs_signature.
+
+Theorem C08_validated_no_sigless_spend : forall e ke c kk pol m att w,
+  validate_compilation c kk pol m att = true -> env_ok e ke -> TheoremA.wf e ke m ->
+  (forall k x, In k (keys_s (lift_ms m)) -> In x w -> Exec.e_sigok e (kb ke k) x = false) ->
+  Exec.accepts e (enc ke m) w = false.
+Proof. exact validated_no_sigless_spend. Qed.
+Print Assumptions C08_validated_no_sigless_spend.
+
+(* non-vacuity of [over] / [locks_sound]: the stack's own world satisfies both, for every
+   transaction and every stack *)
+Theorem C08_stack_world_ok : forall e ke w,
+  over e ke (stack_world e ke w) w /\ locks_sound e (stack_world e ke w).
+Proof. exact (fun e ke w => conj (stack_world_over e ke w) (stack_world_locks e ke w)). Qed.
+Print Assumptions C08_stack_world_ok.
 
 (* ---- non-vacuity: concrete accepted and rejected validations
    ex_pol = or(9@pk(0),1@and(pk(1),older(144))), ex_ms = or_d(pk(0),and_v(v:pkh(1),older(144))),
